@@ -26,9 +26,9 @@ from WallGo.exceptions import WallGoError
 
 from symx import axioms, core, diff, npx
 from symx.core import AND, OR, NOT, Cond, Sym, eq, ge, gt, le, lt, ne
-from symx.harness import HarnessDef
+from symx.harness import HarnessDef, bare
 from props.hydrokit import ScipyStubs, tolerance_claims
-from props.c02 import make_hydro, arctan_axioms
+from props.c02 import h_deflag as _h_deflag, make_hydro, arctan_axioms
 
 EXPLANATION = __doc__
 BOUNDS = {"paths": "<= 400 per harness", "Jouguet bracketing loop": "unrolled 2"}
@@ -128,7 +128,7 @@ def h_jouguet(h, part):
 
 def h_template_vj(h):
     h.patch(HT, float=npx.symfloat, np=npx.NP())
-    t = HT.HydrodynamicsTemplateModel.__new__(HT.HydrodynamicsTemplateModel)
+    t = bare(HT.HydrodynamicsTemplateModel)
     t.cb2 = h.real("cb2", 0.05, 0.5, default=0.3)
     t.cb = core.sym_sqrt(t.cb2) if h.symbolic else t.cb2 ** 0.5
     t.alN = h.real("alN", 1e-3, 3, default=0.1)
@@ -142,7 +142,7 @@ def h_template_vj(h):
 
 def h_template_deton(h):
     h.patch(HT, float=npx.symfloat, np=npx.NP(), pow=core.sym_pow)
-    t = HT.HydrodynamicsTemplateModel.__new__(HT.HydrodynamicsTemplateModel)
+    t = bare(HT.HydrodynamicsTemplateModel)
     t.cb2 = h.real("cb2", 0.05, 0.5, default=0.3)
     t.alN = h.real("alN", 1e-3, 0.3, default=0.05)
     t.Tnucl = h.real("Tn", 0.01, 1e3, default=1.0)
@@ -281,6 +281,11 @@ HARNESSES = [
                encodes=[HY.Hydrodynamics.slowestDeton], random_validation=0, concrete_alarms=False),
     HarnessDef("classification", h_classify, [dict()], max_paths=50, timeout_s=30, axioms=AX,
                encodes=[HY.Hydrodynamics.findMatching], random_validation=0, concrete_alarms=False),
+    # "deflagrations have v- = vw below the sound speed behind the wall, hybrids v- = that sound speed":
+    # v-^2 = min(vw^2, cs-^2(T-)) with the sound speed at the RETURNED T- (harness shared with C02)
+    HarnessDef("deflagration-hybrid-vminus", _h_deflag, [dict(guess="fixed")], max_paths=600, timeout_s=60, axioms=AX,
+               encodes=[HY.Hydrodynamics.matchDeflagOrHyb, HY.Hydrodynamics.vpvmAndvpovm],
+               random_validation=2, concrete_alarms=False),
 ]
 
 MANIFEST = {
